@@ -35,6 +35,7 @@ NAME = [
     "<i>State v. Bar</i>, ",
     "<i>Foo v. bar</i>, ",
     "<i>Foo v. Bar Co.</i>, ",
+    "<i>Roe v. Li</i>, ",  # a two-letter party name: too short to found a reference
 ]
 CITE = ["1 U.S. 1 (1999).", "1 U.S. 1, 5 (1999);", "1 U.S.\n 1.", "<b>1 U.S. 1</b> (1999).", "1 U.S. 1, 2 F.2d 2 (1999)."]
 MID = [
@@ -50,6 +51,8 @@ MID = [
     " <i>Foo v.\n Bar</i> again.",
     "</p><p><i>Bar</i> again.",
     " (<em>Bar,</em> dissenting).",
+    " In <i>Li</i> we held.",
+    " Li at 7 says, and <em>Roe</em> too.",
     "",
 ]
 END = ["</p>", "</p></div>", ""]
